@@ -396,11 +396,14 @@ void libxmp_load_epilogue(struct context_data *ctx)
 	/* libxmp_load_sample checks the loop points when it loads the data; a
 	 * loader that sets them afterwards (DBM with INST after SMPL) bypasses
 	 * that, and the mixer indexes the sample data with them. Never leave a
-	 * loop flagged that lies outside the data of a loaded sample. */
+	 * loop flagged that lies outside the data of a loaded sample, nor loop
+	 * points of an unlooped sample that lie outside it (front-ends read
+	 * them, and a later XMP_SAMPLE_LOOP would make them live). */
 	for (i = 0; i < mod->smp; i++) {
 		struct xmp_sample *xxs = &mod->xxs[i];
-		if (xxs->data != NULL && (xxs->flg & XMP_SAMPLE_LOOP) &&
-		    (xxs->lps < 0 || xxs->lpe > xxs->len || xxs->lps >= xxs->lpe)) {
+		if (xxs->data != NULL &&
+		    (xxs->lps < 0 || xxs->lpe > xxs->len || xxs->lps > xxs->lpe ||
+		     ((xxs->flg & XMP_SAMPLE_LOOP) && xxs->lps >= xxs->lpe))) {
 			xxs->lps = xxs->lpe = 0;
 			xxs->flg &= ~(XMP_SAMPLE_LOOP | XMP_SAMPLE_LOOP_BIDIR);
 		}
